@@ -58,6 +58,15 @@ def make_db(name):
         if name == 'custom':
             db.set_unknown_macro_spec(MacroSpec(''))
             db.set_unknown_environment_spec(EnvironmentSpec(''))
+    elif name == 'commasep':
+        # real code only (the comma-separated list parser is outside the model): a macro taking such an argument
+        from pylatexenc.latexnodes.parsers import LatexCharsCommaSeparatedListParser
+        db.add_context_category('c', macros=[
+            MacroSpec('cs', [LatexArgumentSpec(LatexCharsCommaSeparatedListParser())]),
+            MacroSpec('ck', [LatexArgumentSpec(LatexCharsCommaSeparatedListParser(keep_empty_parts=True)), LatexArgumentSpec('{')]),
+        ])
+        db.set_unknown_macro_spec(MacroSpec(''))
+        db.set_unknown_environment_spec(EnvironmentSpec(''))
     elif name == 'bare':
         db.set_unknown_macro_spec(MacroSpec(''))
         db.set_unknown_environment_spec(EnvironmentSpec(''))
@@ -79,6 +88,8 @@ def ctx_wire(name):
 
 
 CONTEXTS = ['default', 'custom', 'custom-nofallback', 'bare']
+UNMODELLED_CONTEXTS = ['commasep']          # wire entry 999 does not exist: model and implementation dump both say BADIN
+SYM_COMMASEP = ['\\cs', '\\ck', '{', '}', ',', ',,', 'a', ' ', 'b,', '{c}', '%x\n', '$', '\\cs{', '\n\n', '[', '\\z']
 
 # ---------------------------------------------------------------------------
 # alphabets (symbols may be multi-character)
